@@ -5,9 +5,11 @@ import CashewsVerif.Model.TxSched
   case <nkeys>                     -> ok            (forget everything)
   init <k> <v>                     -> ok
   task <tx|plain> <fast|locked|serializable> <timeout u> <ctx|dec> <op>*   -> ok
-        op = set:k:v | incr:k:n | get:k | del:k | expire:k | setx:k:v:0|1 | sleep:d | raise | nin:ctx | nin:dec | nout
+        op = set:k:v | incr:k:n | get:k | del:k | expire:k | setx:k:v:0|1 | sleep:d | raise | raise:base | nin:ctx | nin:dec | nout
+           | commit | rollback      (explicit `tx.commit()` / `tx.rollback()` inside the body)
   run <tid>                        -> label=<command the task was parked before> store=… locks=… now=…
   adv <u>                          -> store=… locks=… now=…
+  cancel <tid>                     -> store=… locks=… now=…     (`task.cancel()` delivered at the task's suspension point)
   end                              -> outcomes of all tasks
 -/
 open CashewsVerif CashewsVerif.Proto CashewsVerif.TxSched
@@ -34,7 +36,10 @@ def parseCmd? (s : String) : Option Cmd :=
   | ["setx", k, v, "1"] => do pure (.setx (← k.toNat?) (← v.toInt?) true)
   | ["setx", k, v, "0"] => do pure (.setx (← k.toNat?) (← v.toInt?) false)
   | ["sleep", d] => do pure (.sleep (← d.toNat?))
-  | ["raise"] => some .raise
+  | ["raise"] => some (.raise false)
+  | ["raise", "base"] => some (.raise true)
+  | ["commit"] => some .commit
+  | ["rollback"] => some .rollback
   | ["nin", f] => do pure (.nestIn (← parseForm? f))
   | ["nout"] => some .nestOut
   | _ => none
@@ -56,6 +61,8 @@ def showOutcome : Outcome → String
   | .returned rs => "ret:" ++ showRes rs
   | .raisedBody => "raise:body"
   | .raisedLocked => "raise:locked"
+  | .raisedBase => "raise:base"
+  | .cancelled => "cancelled"
 
 def label (t : Task) : String :=
   match t.pc with
@@ -73,11 +80,17 @@ def label (t : Task) : String :=
   | .direct (.setx k _ _) => s!"set:{k}"
   | .direct _ => "none"
   | .commitDel => "delete_many:" ++ "+".intercalate ((sortNat t.del).map toString)
+  | .midDel => "delete_many:" ++ "+".intercalate ((sortNat t.del).map toString)
   | .commitSet =>
+    let ks := sortNat (t.ov.map (·.1))
+    "set_many:" ++ "+".intercalate (ks.map fun k => s!"{k}={(t.ov.get k).getD 0}")
+  | .midSet =>
     let ks := sortNat (t.ov.map (·.1))
     "set_many:" ++ "+".intercalate (ks.map fun k => s!"{k}={(t.ov.get k).getD 0}")
   | .unlocking (l :: _) _ => "unlock:" ++ showLock l
   | .unlocking [] _ => "none"
+  | .midUnlock (l :: _) => "unlock:" ++ showLock l
+  | .midUnlock [] => "none"
   | .lockSleep .. => "none"
   | .bodySleep _ => "none"
   | .finished _ => "none"
@@ -127,6 +140,14 @@ def step (st : St) (line : String) : St × String :=
     | some d =>
       let w' := (getWorld st).step (.adv d)
       ({ st with world := some w' }, showWorld st.nkeys w')
+    | none => (st, "bad-op")
+  | ["cancel", tid] =>
+    match tid.toNat? with
+    | some tid =>
+      if tid < st.tasks.length then
+        let w' := (getWorld st).step (.cancel tid)
+        ({ st with world := some w' }, showWorld st.nkeys w')
+      else (st, "bad-op")
     | none => (st, "bad-op")
   | ["end"] =>
     let w := getWorld st
